@@ -32,6 +32,12 @@ fn template(pos: &str) -> &'static str {
         "policy_expr_value" => "allow if f($x), $x == {p}",
         "policy_expr_in_set" => "allow if f($x), { {p} }.contains($x)",
         "policy_scope" => "allow if f($x) trusting {p}",
+        "check_two_alternatives" => "check if g({p}) or h($x), $x == {p}",
+        "policy_two_alternatives" => "allow if g({p}) or h($x), $x == {p}",
+        "rule_head_and_body" => "r({p}) <- f($x), g({p}), $x != {p}",
+        "fact_twice" => "f({p}, [{p}])",
+        "check_scope_two_alternatives" => "check if f($x) trusting {p} or g($x) trusting {p}",
+        "policy_scope_two_alternatives" => "allow if f($x) trusting {p} or g($x) trusting {p}",
         o => panic!("position {o}"),
     }
 }
@@ -124,7 +130,7 @@ fn replay_case(idx: usize, case: &Value) -> Value {
     let strict = c["strict"].as_bool().unwrap();
     let known = c["known"].as_bool().unwrap();
     let want = case["outcome"].as_str().unwrap();
-    let is_scope = pos.ends_with("scope");
+    let is_scope = pos.contains("scope");
     let r = util::catch(|| -> Result<String, String> {
         let mut item = parse(pos, template(pos)).map_err(|e| format!("template does not parse: {e}"))?;
         if bound {
